@@ -338,7 +338,7 @@ CHECKS["C14"] = {
 }
 
 
-CAT_ROWS = ["idem", "skip", "htons", "delay", "setattr", "setflowdef", "probe_uref", "match_attr", "null", "dup", "time_limit", "genaux",
+CAT_ROWS = ["skip>htons", "setattr>delay>idem", "idem", "skip", "htons", "delay", "setattr", "setflowdef", "probe_uref", "match_attr", "null", "dup", "time_limit", "genaux",
             "buffer", "rate_limit", "qsink", "agg", "chunk", "ts_sync", "ts_check", "ts_align"]
 CAT_HEAVY = {"buffer": 1}
 
@@ -351,13 +351,13 @@ def _cat_jobs(oracle, tier, rows=CAT_ROWS, pools=(0, 2)):
             jobs.append(("pipex_cat", ["--row", r, "--oracle", oracle, "--pool", pool, "--depth", d, "--deadline", 75 if q else 840]))
     return jobs
 
-_CAT_BOUNDS = {"quick": "20 catalogue pipes x pool depth {0,2}: every sequence of up to 5 operations (4 for buffer) over the row's alphabet "
+_CAT_BOUNDS = {"quick": "22 catalogue rows (20 pipes + 2 chains) x pool depth {0,2}: every sequence of up to 5 operations (4 for buffer) over the row's alphabet "
                         "(set_flow_def F1/F2/foreign, 4 input shapes incl. empty and 2-segment buffers, set_output S0/S1(rejecting)/NULL, sink answer toggle, flush, "
                         "every option setter x 3-4 values, subpipe alloc/set_output/release, pump dispatch, release), followed by release of everything and a run of the event loop to quiescence",
                "thorough": "same alphabet, one operation deeper"}
 _CAT_NOTE = ("Pipe-private state is not readable from outside, so histories are not merged: the full tree is enumerated up to the depth. "
              "Catalogue: idem skip htons delay setattr setflowdef probe_uref match_attr null dup(+2 output subpipes) time_limit genaux buffer rate_limit "
-             "queue_sink+queue_source(one thread, mock loop) aggregate chunk_stream ts_sync ts_check ts_align; other pipe types are outside the bound.")
+             "queue_sink+queue_source(one thread, mock loop) aggregate chunk_stream ts_sync ts_check ts_align, and the chains skip>htons and setattr>delay>idem; other pipe types are outside the bound.")
 
 CHECKS["C01"] = {
     "engine": "pipex", "design_ref": "DESIGN.md section 3 C01",
@@ -385,7 +385,7 @@ CHECKS["C05"] = {
     "engine": "pipex", "design_ref": "DESIGN.md section 3 C05",
     "technique": "explicit-state enumeration of all input/control sequences up to a depth on every pass-through / split / buffering catalogue pipe (real code); sequence numbers in payload and attribute checked at recording sinks against the documented transformation and a model of the output contract",
     "level_text": "Same enumeration as C01 (buffers of 0, 2, 3 and 5 octets, one or two segments, dated). Every buffer seen by a sink must be one that was input, at most once per sink, in input order, with exactly the documented change (identity; skip offset removed; octet pairs swapped; delay added to the three dates; attributes added; match_attr predicate) on payload, attributes, dates and flags; one-to-one and duplicating pipes deliver during the input call or never, to exactly the sinks a model of the output contract names (definition stored, output connected, definition accepted) - so a lost, extra or misrouted buffer is caught; holding pipes (time_limit, genaux, buffer, rate_limit, queue sink + source) keep arrival order and, when the output stays connected and accepting, deliver everything once the loop is quiescent; whatever is still held at the end is freed (accounting as in C01). Bounded, not a proof.",
-    "level_note": _CAT_NOTE + " Chains of several pipes are not enumerated here.",
+    "level_note": _CAT_NOTE + " Chains: skip>htons and setattr>delay>idem only.",
     "jobs": {"quick": _cat_jobs("C05", "quick", [r for r in CAT_ROWS if r not in ("agg", "chunk", "ts_sync", "ts_check", "ts_align")]),
              "thorough": _cat_jobs("C05", "thorough", [r for r in CAT_ROWS if r not in ("agg", "chunk", "ts_sync", "ts_check", "ts_align")])},
     "rule": "state = one operation history (no merging); non-trivial = histories in which at least one buffer reached a sink",
